@@ -12,6 +12,8 @@ class Context:
         self._busy = set()
         self._gtab = {}
         self.field_inv = {}      # (rec, field) -> interval, filled by fieldinv
+        self.arg_assume = {}     # (caller, callee, param) -> (frozenset of field names in the argument, interval, reason)
+        self.arg_assume_used = set()
         self.stats = {"analyses": 0}
 
     # ---- analyses --------------------------------------------------------------
@@ -57,6 +59,13 @@ class Context:
                 if st is None:
                     continue       # unreachable call site
                 v = absint.wrap(a.eval(st, args[n]), p.get("it"))
+                asm = self.arg_assume.get((cf.name, f.name, p["name"]))
+                if asm is not None:
+                    from . import atoms
+                    flds = frozenset(x.split(".")[-1] for x in atoms.Operand(cf, args[n]).fields)
+                    if flds == asm[0]:
+                        v = absint.meet(v, asm[1])
+                        self.arg_assume_used.add((cf.name, f.name, p["name"]))
                 iv = v if iv is None else absint.hull(iv, v)
             if iv is not None and iv != (None, None):
                 res[p["name"]] = iv
@@ -69,7 +78,9 @@ class Context:
             return self._gtab[name]
         r = None
         for g in self.prog.globals.get(name, []):
-            if "init" not in g or not g.get("const"):
+            if "init" not in g:
+                continue
+            if not g.get("const") and not (g.get("static") and self.never_written(name, g.get("unit"))):
                 continue
             vals = []
             ok = self._flatten(g["exprs"], g["init"], vals)
@@ -78,6 +89,59 @@ class Context:
                 break
         self._gtab[name] = r
         return r
+
+    def never_written(self, name, unit):
+        """A `static` table that no code of its unit stores to or hands out by
+        (non-const) address is as good as const."""
+        c = self.__dict__.setdefault("_never_written", {})
+        k = (name, unit)
+        if k in c:
+            return c[k]
+        ok = True
+        for f in self.prog.funcs:
+            if f.unit != unit:
+                continue
+            for i, e in enumerate(f.exprs):
+                if e["k"] == "ref" and e.get("name") == name and e.get("dk") in ("global", "slocal"):
+                    if not self._read_only_use(f, i):
+                        ok = False
+                        break
+            if not ok:
+                break
+        c[k] = ok
+        return ok
+
+    def _read_only_use(self, f, ref):
+        """The ref node is only subscripted and read (a[i] as an rvalue)."""
+        par = f._cache.get("parents")
+        if par is None:
+            par = {}
+            for j, e in enumerate(f.exprs):
+                for c in e.get("c", []) or []:
+                    if isinstance(c, int) and c >= 0:
+                        par.setdefault(c, j)
+            f._cache["parents"] = par
+        n = ref
+        seen_idx = False
+        for _ in range(12):
+            p = par.get(n)
+            if p is None:
+                return False
+            pe = f.exprs[p]
+            if pe["k"] == "cast" and pe["ck"] in ("ArrayToPointerDecay", "NoOp"):
+                n = p
+                continue
+            if pe["k"] == "idx" and ex.skip(f, pe["c"][0]) in (n, ex.skip(f, n)):
+                seen_idx = True
+                n = p
+                if "it" in pe:
+                    pp = par.get(n)
+                    return pp is not None and f.exprs[pp]["k"] == "cast" and f.exprs[pp]["ck"] == "LValueToRValue"
+                continue
+            if pe["k"] == "sizeof" or (pe["k"] == "cast" and pe["ck"] == "LValueToRValue" and seen_idx):
+                return True
+            return False
+        return False
 
     def _flatten(self, exprs, i, out, depth=0):
         e = exprs[i]
@@ -149,7 +213,47 @@ class Context:
         t = self.prog.func_for(f, n)
         if t is None:
             return None
-        return self.ret_range(t)
+        r = self.ret_range(t)
+        # a small helper called with constant arguments (get_bits (&bs, 3)): its
+        # return range for exactly these arguments
+        if "it" in t.ret and len(t.blocks) <= 60 and e.get("c"):
+            piv = {}
+            for k, p in enumerate(t.params):
+                if k < len(e["c"]) and "it" in p:
+                    v = an.eval(st, e["c"][k])
+                    if v[0] is not None and v[0] == v[1]:
+                        piv[p["name"]] = v
+            if piv:
+                r2 = self.ret_range_for(t, piv)
+                if r2 is not None:
+                    r = r2 if r is None else absint.meet(r, r2)
+        return r
+
+    def ret_range_for(self, t, piv):
+        key = (t.key, tuple(sorted(piv.items())))
+        c = self.__dict__.setdefault("_ret_ctx", {})
+        if key in c:
+            return c[key]
+        if ("retc", key) in self._busy:
+            return None
+        self._busy.add(("retc", key))
+        try:
+            c[key] = None
+            a = absint.Analysis(self, t, piv).run()
+            self.stats["analyses"] += 1
+            r = None
+            for bid, i in flow.all_events(t):
+                e = t.exprs[i]
+                if e["k"] == "ret" and e.get("c"):
+                    st = a.state_before(i)
+                    if st is None:
+                        continue
+                    v = absint.wrap(a.eval(st, e["c"][0]), t.ret.get("it"))
+                    r = v if r is None else absint.hull(r, v)
+            c[key] = r
+            return r
+        finally:
+            self._busy.discard(("retc", key))
 
     def ret_range(self, t):
         if t.key in self._ret:
